@@ -1,6 +1,7 @@
 package main
 
 import (
+	"sync/atomic"
 	"time"
 	"bufio"
 	"bytes"
@@ -299,7 +300,14 @@ func writeJSON(path string, v interface{}) error {
 
 // watchdog runs f on its own goroutine and reports whether it returned within d (real time). A call
 // that does not return is a finding of its own ("hang"), never a reason for the harness to hang.
+var watchdogExpired int32
+
 func watchdog(d time.Duration, f func()) bool {
+	// once three calls have not returned the run has its findings; further calls get less patience so
+	// that a defect that makes everything hang does not make the check run for hours
+	if atomic.LoadInt32(&watchdogExpired) >= 3 && d > 5*time.Second {
+		d = 5 * time.Second
+	}
 	done := make(chan struct{})
 	go func() {
 		defer close(done)
@@ -309,6 +317,7 @@ func watchdog(d time.Duration, f func()) bool {
 	case <-done:
 		return true
 	case <-time.After(d):
+		atomic.AddInt32(&watchdogExpired, 1)
 		return false
 	}
 }
